@@ -499,4 +499,10 @@ def resolve (cfg : Config) (bo : Backoff) (clip : Bool) (maxChain : Nat) (req : 
       let env := mkEnv cfg bo clip maxChain req now qnames
       run env (fuelBound bo cfg.servers.length qnames.length env.lifetime) (initSt now cache script qnames)
 
+/-- `Resolver.resolve` of the working tree: the back-off schedule, the clipping of the back-off sleep and `MAX_CHAIN`
+are the values regenerated from the code on every run -/
+def codeResolve (cfg : Config) (req : Request) (now : Nat) (cache : Cache) (script : List ScriptStep) :
+    List Event × Result × St :=
+  resolve cfg codeBackoff ConstsC16.clipSleep ConstsC16.maxChain req now cache script
+
 end Model.Resolver
